@@ -239,3 +239,4 @@ RT = True
 TRUSTED = ["matrix layer + stacking operators VS / ROWOF / CMEAN with their dimension and row laws; np.mean(X**2, axis=0).sum() = ||X||_F^2 / n; np.linalg.pinv, matrix_rank as functions of the matrix",
            "bounded in the NUMBER of structures (list lengths are concrete per unit: 1..3 training, 1..2 test structures); unbounded in environments per structure, feature dimension, alpha",
            "scaling laws (invariance under a common rescaling, non-decreasing in alpha, strict positivity, LCPR with one component = LPR, CPR of a one-environment structure = LCPR): consequences of the closed form, bounded runtime checks"]
+LEAN_LEMMAS = "lemmas/lean/Lemmas.lean"
